@@ -477,6 +477,48 @@ fn eval_case(i: usize, c: &FileCase, dir: &Path, t: &mut Tally, cross: bool) {
     crate::seqmc::engine::close_leaked_fds(&path);
 }
 
+/// "After the daemon's start-up and first publication clients can open it", with the daemon started the way it
+/// is in production (the release binary, `main()` included) and the client another user (procmc/e2e.rs).
+fn end_to_end(ctx: &Ctx, t: &mut Tally) -> Value {
+    use crate::procmc::e2e::{self, PhcFile, Scenario};
+    let bin = e2e::binary(ctx);
+    if !Path::new(&bin).exists() {
+        return json!({"skipped": format!("release binary {bin} not built")});
+    }
+    let scenarios = vec![
+        Scenario { name: "nothing at the segment path, not even its directory", args: vec![], chronyd: None, phc: PhcFile::Absent, preexisting: None, observe_ms: 1200 },
+        Scenario { name: "72 bytes of 0xAA at the segment path", args: vec![], chronyd: None, phc: PhcFile::Absent, preexisting: Some(vec![0xAA; SEG]), observe_ms: 1200 },
+        Scenario { name: "an empty file at the segment path", args: vec!["--max-drift-rate".into(), "7".into()], chronyd: None, phc: PhcFile::Absent, preexisting: Some(vec![]), observe_ms: 1200 },
+    ];
+    let results: Vec<Result<Value, String>> = std::thread::scope(|s| {
+        let hs: Vec<_> = scenarios.iter().map(|sc| { let bin = bin.clone(); s.spawn(move || e2e::run_scenario(&bin, sc)) }).collect();
+        hs.into_iter().map(|h| h.join().unwrap_or_else(|_| Err("scenario thread panicked".into()))).collect()
+    });
+    let mut report = vec![];
+    for (sc, r) in scenarios.iter().zip(results) {
+        let v = match r {
+            Ok(v) => v,
+            Err(e) => crate::common::report::machinery_failure(&format!("C16 end-to-end scenario '{}': {e}", sc.name)),
+        };
+        if let Some(u) = v["unavailable"].as_str() {
+            return json!({"skipped": format!("the sandbox does not allow it: {u}")});
+        }
+        let doc = json!({"check": "C16", "phase": "end to end through the release binary", "scenario": sc.name, "observed": v});
+        let n = v["publications"].as_array().map(|a| a.len()).unwrap_or(0);
+        if n == 0 {
+            t.add("C16:e2e:no-publication", format!("{}: the daemon did not publish within {} ms (exit status {})", sc.name, sc.observe_ms, v["daemon_exit_status"]), doc.clone());
+        } else if v["opened_by_uid_65534"]["open"] != "ok" {
+            if v["opened_by_uid_65534"]["open"] != "not attempted" {
+                t.add("C16:e2e:not-openable-by-another-user", format!("{}: after the daemon's start-up and first publication a client running as another user gets {} (segment mode {}, directory mode {})", sc.name, v["opened_by_uid_65534"]["open"], v["segment_mode_octal"], v["directory_mode_octal"]), doc.clone());
+            }
+        } else if v["opened_by_uid_65534"]["record"].is_null() {
+            t.add("C16:e2e:read-back-fails", format!("{}: another user can open the segment but snapshot() fails: {}", sc.name, v["opened_by_uid_65534"]["snapshot"]), doc.clone());
+        }
+        report.push(json!({"scenario": sc.name, "publications": n, "segment_mode": v["segment_mode_octal"], "directory_mode": v["directory_mode_octal"], "opened_by_uid_65534": v["opened_by_uid_65534"]["open"]}));
+    }
+    json!({"scenarios": report})
+}
+
 pub fn run(ctx: &Ctx) -> i32 {
     crate::common::report::quiet_panics();
     let all = cases(ctx.tier);
@@ -535,6 +577,7 @@ pub fn run(ctx: &Ctx) -> i32 {
             }
         }
     }
+    let e2e = end_to_end(ctx, &mut t);
     let samples: Vec<Value> = [3usize, 90, all.len() - 3].iter().map(|i| json!({"case": all[*i].label, "documented_rules_say": format!("{:?}", reference(&all[*i].kind))})).collect();
     let coverage = cov(vec![
         ("evaluations", json!(t.n)),
@@ -544,6 +587,7 @@ pub fn run(ctx: &Ctx) -> i32 {
         ("expected_classes", json!(t.classes)),
         ("violation_counts_by_class", json!(t.counts)),
         ("environments", json!({"same_user": "harness user creates the file, runs the daemon steps and the client steps", "cross_uid": if cross_ok { json!({"every case again with": "client steps in a child process", "client": crate::common::privdrop::describe()}) } else { json!("skipped: the harness is not running as root") }})),
+        ("end_to_end_through_the_release_binary", e2e),
         ("exhaustive", json!(true)),
         ("exhaustive_of", json!("the stated structured alphabet (not all byte contents)")),
     ]);
